@@ -38,6 +38,10 @@ func init() {
 }
 
 func runC03(c *fw.Ctx) {
+	if c.S.Draw(16, "c03-dealer") == 15 {
+		runDealer(c, func(b *Byz) { b.CheckResults() })
+		return
+	}
 	b := NewByz(c, byzOpts(c, 10), mut.SemanticOps, false)
 	b.Headers = true
 	if len(b.Targets) == 0 {
